@@ -6,6 +6,8 @@ use elf::string_table::StringTable;
 pub const DEF: PropDef = PropDef { id: "C15", strata, run, setup, canaries: &["panic"] };
 
 fn setup(ctx: &mut Ctx) {
+    #[cfg(all(target_pointer_width = "64", not(miri)))]
+    ctx.floor("lookups-at-offsets>=2^32-24", 200);
     ctx.floor("ok", 1000);
     ctx.floor("err:bad-offset", 100);
     ctx.floor("err:missing-nul", 100);
@@ -27,6 +29,8 @@ fn strata(t: Tier) -> Vec<Stratum> {
         st("random-tables", scale(t, 3_000_000, 30_000_000, 480)),
         ex("word-sized-tables-exhaustive", scale(t, n_tables5(), n_tables5(), 0)),
         st("boundary-byte-tables", scale(t, 1_000_000, 10_000_000, 200)),
+        // a string table that really is longer than 4 GiB: strings at and across the 2^32 mark and at the very end
+        st("table-beyond-4GiB", scale(t, 320, 3200, 0)),
     ]
 }
 
@@ -151,8 +155,46 @@ pub fn check_lookup(ctx: &mut Ctx, table: &[u8], off: usize) {
     }
 }
 
+fn huge_table_case(ctx: &mut Ctx) {
+    let seed = ctx.rng.next_u64();
+    let done = super::util::with_huge_buffer(|buf| {
+        let len = buf.len();
+        let mut r = crate::rng::Rng::new(seed);
+        let base: usize = match r.below(4) {
+            0 => (1usize << 32) - 24,
+            1 => (1usize << 32) - 1 - r.usize_below(8),
+            2 => 1usize << 32,
+            _ => len - 48,
+        };
+        // a few short strings of boundary-heavy bytes, NUL separated; the last one may reach the end unterminated
+        let alpha = [0x00u8, 0x01, b'a', b'z', 0x7f, 0x80, 0xC3, 0xA9, 0xff];
+        for i in 0..48 {
+            buf[base + i] = if i % 7 == 6 { 0 } else { alpha[r.usize_below(alpha.len())] };
+        }
+        if base + 48 == len && r.bool() {
+            buf[len - 1] = b'x';
+        }
+        {
+            let view: &[u8] = buf;
+            for off in base.saturating_sub(3)..(base + 52).min(len + 3) {
+                check_lookup(ctx, view, off);
+            }
+            check_lookup(ctx, view, len);
+            check_lookup(ctx, view, usize::MAX);
+            ctx.count("lookups-at-offsets>=2^32-24");
+        }
+        for i in 0..48 {
+            buf[base + i] = 0;
+        }
+    });
+    if done.is_none() {
+        ctx.count("beyond-4GiB:not-on-this-target");
+    }
+}
+
 fn run(ctx: &mut Ctx, si: usize, case: u64) {
     match si {
+        4 => huge_table_case(ctx),
         0 => {
             let table = table_for(case);
             ctx.sample(|| format!("table={} every offset 0..=len+2, usize::MAX-1, usize::MAX", hex_trunc(&table, 16)));
